@@ -28,6 +28,8 @@ META = {
 VARS = ["v%d" % i for i in range(8)]
 FNS = ["f%d" % i for i in range(8)]
 SETTERS = ["s%d" % i for i in range(3)]
+NATIVES = {0: "+", 1: "*"}          # built-in procedures that accept no operands: (+) = 0, (*) = 1
+PRIMS = ["p%d" % i for i in range(3)]
 
 
 def to_steel(form):
@@ -45,6 +47,10 @@ def to_steel(form):
         return "(define (%s v) (set! %s v) 0)" % (t[1], t[2])
     if k == "set":
         return "(begin (set! %s %s) 0)" % (t[1], t[2])
+    if k == "defn":
+        return "(define %s %s)" % (t[1], NATIVES[int(t[2])])
+    if k == "setn":
+        return "(begin (set! %s %s) 0)" % (t[1], NATIVES[int(t[2])])
     if k == "call":
         return "(%s)" % t[1]
     if k == "calls":
@@ -83,10 +89,19 @@ def gen_history(rng, npieces, stream):
         elif r < 0.50:
             f = rng.choice(FNS)
             if kind.get(f, "fn") == "fn":
-                cands = defined("var") + [g for g in defined("fn") if g != f]
+                cands = defined("var") + [g for g in defined("fn") if g != f] + defined("prim")
                 refs = rng.sample(cands, min(len(cands), rng.randint(1, 3)))
                 piece.append("deff %s %s" % (f, " ".join("%s:%s" % (n, "r" if kind[n] == "var" else "c") for n in refs)))
                 kind[f] = "fn"
+        elif r < 0.53:
+            # a global that holds a built-in procedure; functions call it, later pieces assign it
+            pn = rng.choice(PRIMS)
+            if kind.get(pn, "prim") == "prim":
+                if pn in kind and rng.random() < 0.6:
+                    piece.append("setn %s %d" % (pn, rng.randint(0, 1)))
+                else:
+                    piece.append("defn %s %d" % (pn, rng.randint(0, 1)))
+                    kind[pn] = "prim"
         elif r < 0.56 and defined("var"):
             s = rng.choice(SETTERS)
             piece.append("defs %s %s" % (s, rng.choice(defined("var"))))
@@ -123,10 +138,10 @@ def gen_history(rng, npieces, stream):
                 kind[v], kind[f] = "var", "fn"
                 pieces.append(["set %s %d" % (v, fresh())])
         if i % 7 == 6:
-            obs = ["call %s" % f for f in defined("fn")] + ["read %s" % v for v in defined("var")]
+            obs = ["call %s" % f for f in defined("fn") + defined("prim")] + ["read %s" % v for v in defined("var")]
             if obs:
                 pieces.append(obs)
-    obs = ["call %s" % f for f in defined("fn")] + ["read %s" % v for v in defined("var")]
+    obs = ["call %s" % f for f in defined("fn") + defined("prim")] + ["read %s" % v for v in defined("var")]
     if obs:
         pieces.append(obs)
     return pieces
